@@ -1695,6 +1695,8 @@ def heap_diff(old_roots, new_roots):
         if n is None:
             continue
         for fld in set(o.f) | set(n.f):
+            if fld in GHOST_FIELDS:
+                continue
             a, b = o.f.get(fld, _MISSING), n.f.get(fld, _MISSING)
             if a is _MISSING or b is _MISSING:
                 diffs.append((oid, fld, f"{o.label or o.cls.__name__}.{fld}"))
@@ -1720,6 +1722,7 @@ def heap_diff(old_roots, new_roots):
 
 
 _MISSING = object()
+GHOST_FIELDS = {"_options_tlv"}  # memo fields the stubs attach to library objects (not program state)
 
 
 class LoopSpec:
